@@ -180,7 +180,7 @@ func computeLocks(p *Prog) *LockInfo {
 			}
 		}
 		// exported methods and functions are API: callable with nothing held
-		if f.Parent() == nil && f.Object() != nil && f.Object().Exported() && f.Synthetic == "" {
+		if f.Parent() == nil && f.Object() != nil && f.Object().Exported() && f.Synthetic == "" && recvExported(f) {
 			external[f] = true
 		}
 		if f.Synthetic != "" {
@@ -402,4 +402,22 @@ func (li *LockInfo) transAcquires(f *ssa.Function) map[*types.Var]*ssa.Function 
 		}
 	}
 	return out
+}
+
+// recvExported: a method is callable from outside its package only when its
+// receiver's named type is exported too (package-level functions: always).
+func recvExported(f *ssa.Function) bool {
+	r := f.Signature.Recv()
+	if r == nil {
+		return true
+	}
+	t := r.Type()
+	if p, ok := t.(*types.Pointer); ok {
+		t = p.Elem()
+	}
+	if n, ok := t.(*types.Named); ok {
+		// unexported types reach other packages only through interfaces; those calls are in the call graph
+		return n.Obj().Exported()
+	}
+	return true
 }
